@@ -638,6 +638,12 @@ func (idx *indexer) indexSince(txID uint64) error {
 				return fmt.Errorf("%w: the target entry mapper has not generated a key with the specified target prefix", ErrIllegalArguments)
 			}
 
+			if idx.maxBulkSize > 1 {
+				// without mappers the key is backed by a buffer of idx.tx,
+				// which is reused when the next transaction of the bulk is read
+				targetKey = append([]byte(nil), targetKey...)
+			}
+
 			// vLen + vOff + vHash + txmdLen + txmd + kvmdLen + kvmds
 			var b [lszSize + offsetSize + sha256.Size + sszSize + maxTxMetadataLen + sszSize + maxKVMetadataLen]byte
 
